@@ -449,7 +449,10 @@ func (s symbolSlice) Len() int { return len(s.symbols) }
 
 func (s symbolSlice) Swap(i, j int) {
 	s.symbols[i], s.symbols[j] = s.symbols[j], s.symbols[i]
-	s.metaData[i], s.metaData[j] = s.metaData[j], s.metaData[i]
+	// Symbol metadata is optional.
+	if s.metaData != nil {
+		s.metaData[i], s.metaData[j] = s.metaData[j], s.metaData[i]
+	}
 }
 
 func (s symbolSlice) Less(i, j int) bool {
@@ -559,6 +562,9 @@ func (b *ShardBuilder) Add(doc Document) error {
 
 	DetermineLanguageIfUnknown(&doc)
 
+	if doc.SymbolsMetaData != nil && len(doc.SymbolsMetaData) != len(doc.Symbols) {
+		return fmt.Errorf("got %d symbol metadata entries for %d symbols", len(doc.SymbolsMetaData), len(doc.Symbols))
+	}
 	sort.Sort(symbolSlice{doc.Symbols, doc.SymbolsMetaData})
 	var last DocumentSection
 	for i, s := range doc.Symbols {
